@@ -114,8 +114,10 @@ def run_case(item):
     from adcgen.misc import Inputerror
     try:
         spin = rng.random() < 0.2 and op not in ("factor_eri", "factor_denom")
+        if spin and op == "diag_fock" and rng.random() < 0.6:
+            spin = "mixed"       # spinless next to spin-labelled indices
         rem, occ, virt, idx = gen_term(rng, fock=op in ("diag_fock", "block_diag_fock"), spin=spin,
-                                       spaces="ovg" if op == "block_diag_fock" and rng.random() < 0.5 else "ov")
+                                       spaces="ovg" if op in ("block_diag_fock", "diag_fock") and rng.random() < 0.5 else "ov")
     except RuntimeError:
         return {"status": "skipped", "item": item}
     if not consistent_bks(rem):
@@ -226,7 +228,7 @@ def run_case(item):
     A, B = e.sympy, out.sympy
     irs = [IR.expr_ir(A), IR.expr_ir(B)]
     Tset = {IR.idx_ir(s) for s in T}
-    model = pick_model(irs, Tset, MODELS if not spin else [Model(2, 2, spin=True), Model(1, 1, spin=True)],
+    model = pick_model(irs, Tset, MODELS if not spin else [Model(2, 2, spin=True), Model(1, 1, spin=True)],  # noqa
                        budget=120000)
     try:
         oc = compare(A, B, T, model, timeout_ms=TIMEOUT, seed=seed(), val_opts=val_opts)
